@@ -1,11 +1,11 @@
 SPECIFICATION Spec
 CONSTANTS
-  MaxScript = 5
+  MaxScript = 3
   MaxSpurious = 1
   FORWARD_WAKER = TRUE
   READY_DRAINS = TRUE
   FILTER_MODE = "none"
-  CHAIN_MODE = "none"
+  CHAIN_MODE = "chain-eager"
 INVARIANTS TypeOK PrefixInv QueueInv DoneInv
-PROPERTIES Terminates EveryPushDelivered AllDelivered
+PROPERTIES Terminates AllDelivered
 CHECK_DEADLOCK FALSE
